@@ -338,6 +338,7 @@ class Chip:
         self.reuse = False
         self.illegal = []     # out-of-range / reserved-bit writes (C03.NoIllegalWrite)
         self.spi_log = None   # list to record (t, mosi, miso) when tracing is on
+        self.pop_log = getattr(self, "pop_log", None)   # shared list recording every R_RX_PAYLOAD that returned a payload
         self.written = []     # registers written since last clear (C03.Frame)
         self.cycle = 0
         self.rpd = 0
@@ -469,6 +470,8 @@ class Chip:
                 pl = self.rx[0][1]
                 for i in range(1, len(out)):
                     resp[i] = pl[i - 1] if i - 1 < len(pl) else 0
+                if self.pop_log is not None:      # linearisation point of "the driver took a payload out of the RX FIFO"
+                    self.pop_log.append((self.s.now, self.name, self.rx[0][0], bytes(pl)))
                 self.rx.pop(0)
         elif cmd == 0x60:  # R_RX_PL_WID
             if len(out) > 1:
